@@ -8,6 +8,7 @@ import JV.Model.Ubjson
 import JV.Model.Bson
 import JV.Model.EncoderEvents
 import JV.Model.CborParser
+import JV.Model.MsgpackParser
 namespace JV
 namespace Drv
 open Spec.Cbor
@@ -130,6 +131,18 @@ def binaryLine : List String → String
          | some bv => "ok " ++ " ".intercalate (bvTokens bv)
          | none => "skip")
        | .fail (.err e) => "err jsoncons/cbor:" ++ toString e.code
+       | .fail .skip => "skip"
+       | .fail .fuel => "fuel")
+  | ["mdec", "msgpack", opts, x] =>
+    -- bin mdec msgpack <-|dN> x<bytes>  →  the outcome of the msgpack_parser model: value | err jsoncons/msgpack:<code> | skip
+    (match (match x.toList with | 'x' :: cs => Wire.bytesOfHexChars cs | _ => none) with
+     | none => "bad-op"
+     | some s =>
+       match Model.MsgpackParser.decode (depthOpt opts) s with
+       | .ok v _ => (match Model.MsgpackParser.toBV Model.MsgpackParser.renderKey true v with
+         | some bv => "ok " ++ " ".intercalate (bvTokens bv)
+         | none => "skip")
+       | .fail (.err e) => "err jsoncons/msgpack:" ++ toString e.code
        | .fail .skip => "skip"
        | .fail .fuel => "fuel")
   | ["sdec", fmt, x] =>
